@@ -76,6 +76,10 @@ def build_overlay(scratch, parts, instrument):
     # kit -> virtual package pkg/verifkit
     for f in sorted(glob.glob(os.path.join(VERIF, "kit", "*.go"))):
         replace[os.path.join(REPO, "pkg", "verifkit", os.path.basename(f))] = f
+    for sub in sorted(os.listdir(os.path.join(VERIF, "kit"))):
+        if os.path.isdir(os.path.join(VERIF, "kit", sub)):
+            for f in sorted(glob.glob(os.path.join(VERIF, "kit", sub, "*.go"))):
+                replace[os.path.join(REPO, "pkg", "verifkit", sub, os.path.basename(f))] = f
     # harness files -> in-package test files
     for p in parts:
         hdir = os.path.join(VERIF, "harness", p["harness"])
@@ -104,23 +108,38 @@ def build_overlay(scratch, parts, instrument):
                     open(dst, "w", encoding="utf-8").write(new)
                     replace[os.path.join(pdir, f)] = dst
                     nrew += n
-        # shimmed copy of conduit-commons (module cache files cannot be overlaid)
+        # shimmed copy of conduit-commons (module cache files cannot be overlaid). It lives at a stable, content-addressed
+        # path so that the go build cache stays valid between runs; it is regenerated whenever it is missing.
         cdir = commons_dir()
-        ccopy = os.path.join(scratch, "commons")
-        shutil.copytree(cdir, ccopy)
-        subprocess.run(["chmod", "-R", "u+w", ccopy], check=True)
-        for pkg in COMMONS_INSTRUMENTED:
-            pdir = os.path.join(ccopy, pkg)
-            for f in sorted(os.listdir(pdir)):
-                if f.endswith(".go") and not f.endswith("_test.go"):
-                    path = os.path.join(pdir, f)
-                    new, n = rewrite_sync(open(path, encoding="utf-8").read())
-                    if n:
-                        open(path, "w", encoding="utf-8").write(new)
-        vs = os.path.join(ccopy, "vsync")
-        os.makedirs(vs, exist_ok=True)
-        for f in glob.glob(os.path.join(VERIF, "shim", "vsync", "*.go")):
-            shutil.copy(f, vs)
+        import hashlib
+        h = hashlib.sha256()
+        h.update(cdir.encode())
+        for f in sorted(glob.glob(os.path.join(VERIF, "shim", "vsync", "*.go"))):
+            h.update(open(f, "rb").read())
+        h.update(repr(COMMONS_INSTRUMENTED).encode())
+        ccopy = os.path.join(VERIF, ".cache", "commons-" + h.hexdigest()[:16])
+        if not os.path.isdir(ccopy):
+            os.makedirs(os.path.dirname(ccopy), exist_ok=True)
+            tmpc = tempfile.mkdtemp(prefix="commons-", dir=os.path.dirname(ccopy))
+            os.rmdir(tmpc)
+            shutil.copytree(cdir, tmpc)
+            subprocess.run(["chmod", "-R", "u+w", tmpc], check=True)
+            for pkg in COMMONS_INSTRUMENTED:
+                pdir = os.path.join(tmpc, pkg)
+                for f in sorted(os.listdir(pdir)):
+                    if f.endswith(".go") and not f.endswith("_test.go"):
+                        path = os.path.join(pdir, f)
+                        new, n = rewrite_sync(open(path, encoding="utf-8").read())
+                        if n:
+                            open(path, "w", encoding="utf-8").write(new)
+            vs = os.path.join(tmpc, "vsync")
+            os.makedirs(vs, exist_ok=True)
+            for f in glob.glob(os.path.join(VERIF, "shim", "vsync", "*.go")):
+                shutil.copy(f, vs)
+            try:
+                os.rename(tmpc, ccopy)
+            except OSError:
+                shutil.rmtree(tmpc, ignore_errors=True)  # somebody else won the race
         modfile = os.path.join(scratch, "go.mod")
         gomod = open(os.path.join(REPO, "go.mod"), encoding="utf-8").read()
         gomod += "\nreplace %s => %s\n" % (COMMONS, ccopy)
